@@ -78,6 +78,12 @@ def main():
     ap.add_argument("--repo", default="/repo")
     ap.add_argument("--skip-clean", action="store_true")
     ap.add_argument("-v", action="store_true")
+    ap.add_argument(
+        "--reformat",
+        action="store_true",
+        help="also run every check on a copy whose every file went through ast.unparse (no comments, other layout): "
+        "verdicts and known-finding keys must not depend on positions or formatting",
+    )
     a = ap.parse_args()
     from mutants import MUTANTS
 
@@ -92,6 +98,31 @@ def main():
             if r.returncode != 0:
                 print("CLEAN-TREE {} exit {} (wanted 0)".format(p, r.returncode))
                 bad += 1
+    if a.reformat:
+        import ast
+
+        tmp = tempfile.mkdtemp(prefix="cddfmt_")
+        try:
+            shutil.copytree(os.path.join(a.repo, "cdd"), os.path.join(tmp, "cdd"), ignore=shutil.ignore_patterns("__pycache__"))
+            for extra in ("requirements.txt", "setup.py"):
+                if os.path.isfile(os.path.join(a.repo, extra)):
+                    shutil.copy(os.path.join(a.repo, extra), os.path.join(tmp, extra))
+            for dirpath, _d, files in os.walk(os.path.join(tmp, "cdd")):
+                for fn in files:
+                    if fn.endswith(".py"):
+                        p = os.path.join(dirpath, fn)
+                        with open(p) as f:
+                            src = f.read()
+                        with open(p, "wt") as f:
+                            f.write(ast.unparse(ast.parse(src)) + "\n")
+            os.makedirs(os.path.join(tmp, "ev"))
+            for p in sorted({m["prop"] for m in muts}):
+                r = subprocess.run([os.path.join(VERIF, "check"), p, "--root", tmp, "--evidence-dir", os.path.join(tmp, "ev"), "--quiet"], capture_output=True, text=True)
+                if r.returncode != 0:
+                    print("REFORMATTED-TREE {} exit {} (wanted 0): {}".format(p, r.returncode, (r.stdout + r.stderr)[-300:]))
+                    bad += 1
+        finally:
+            shutil.rmtree(tmp, ignore_errors=True)
     with concurrent.futures.ProcessPoolExecutor(max_workers=a.jobs) as ex:
         results = list(ex.map(run_one, [(m, a.repo) for m in muts]))
     tally = {}
